@@ -172,6 +172,42 @@ def main(argv=None):
                            len(json.dumps(old['spec'], default=str))):
           m['failures'][b] = fl
 
+  # shrink: once per distinct bucket, in parallel, under a time cap
+  todo = []
+  for name, m in merged.items():
+    for b, fl in m['failures'].items():
+      if 'shard' in fl and len(todo) < 8:
+        todo.append((name, b, fl))
+  cap = float(os.environ.get('VERIF_SHRINK_S', '600' if args.tier == 'thorough' else '150'))
+  sprocs = []
+  for k, (name, b, fl) in enumerate(todo):
+    ctx = {'prop': prop, 'tier': args.tier, 'seed': seed, 'shard': fl['shard'],
+           'nshards': args.shards, 'out': os.path.join(work, 'shrink%d.json' % k),
+           'cur_file': None, 'only_phase': name, 'shrink_bucket': b}
+    log = open(os.path.join(work, 'shrink%d.log' % k), 'w')
+    sp = subprocess.Popen([PY, '-m', 'vq.worker', json.dumps(ctx)], env=env,
+                          cwd=VERIF, stdout=log, stderr=subprocess.STDOUT)
+    sprocs.append((sp, ctx, fl, log))
+  t_shrink = time.time()
+  for sp, ctx, fl, log in sprocs:
+    try:
+      sp.wait(timeout=max(1.0, cap - (time.time() - t_shrink)))
+    except subprocess.TimeoutExpired:
+      sp.kill()
+      sp.wait()
+    log.close()
+    got = None
+    if os.path.exists(ctx['out']):
+      with open(ctx['out']) as f:
+        got = json.load(f).get('shrunk')
+    elif os.path.exists(ctx['out'] + '.partial'):
+      with open(ctx['out'] + '.partial') as f:
+        got = {'spec': json.load(f)['spec'], 'message': fl['message'], 'partial': True}
+    if got:
+      fl['spec'] = got['spec']
+      fl['message'] = got['message']
+      fl['shrunk'] = 'partial' if got.get('partial') else True
+
   for name, m in merged.items():
     known_hits.update(m['known'])
     for b, fl in m['failures'].items():
